@@ -26,6 +26,7 @@ type typeString struct{}                 // String primitive
 type typeSet struct{ element cedarType } // Set with element type
 type typeRecord struct {
 	attrs  map[types.String]attributeType
+	open   bool              // a least upper bound dropped attributes with incompatible types: the record may have more
 	source *entityAttrSource // non-nil when record came from entity attribute access
 }
 
@@ -371,6 +372,7 @@ func (v *Validator) lubRecord(a, b typeRecord) (cedarType, error) {
 	}
 
 	attrs := make(map[types.String]attributeType)
+	open := a.open || b.open
 	// Attributes in both
 	for k, aAttr := range a.attrs {
 		if bAttr, ok := b.attrs[k]; ok {
@@ -379,7 +381,9 @@ func (v *Validator) lubRecord(a, b typeRecord) (cedarType, error) {
 				if v.strict {
 					return nil, err
 				}
-				// Permissive mode: drop attributes with incompatible types
+				// Permissive mode: drop attributes with incompatible types. The values still have the attribute,
+				// so the result is an open record: `has` on a dropped attribute is not known to be false.
+				open = true
 				continue
 			}
 			attrs[k] = attributeType{
@@ -395,7 +399,7 @@ func (v *Validator) lubRecord(a, b typeRecord) (cedarType, error) {
 			attrs[k] = attributeType{typ: bAttr.typ, required: false}
 		}
 	}
-	return typeRecord{attrs: attrs}, nil
+	return typeRecord{attrs: attrs, open: open}, nil
 }
 
 func unionLUB(a, b entityLUB) entityLUB {
